@@ -465,6 +465,14 @@ def run_property(mod, tier, seed, only_source=None):
                 agg.slow.extend(pk["slow"])
             agg.keys.update(src.name + ":" + k for k in keys)
             ps["nontrivial"] = len(keys)
+            nd = collections.Counter()
+            for pk in packs:
+                nd.update(pk["discards"])
+            ps["discards"] = sum(nd.values())
+            if ps["evals"] >= 40 and ps["discards"] > 0.05 * ps["evals"]:
+                # not a verdict: a reminder that cases which were generated and counted were not judged (DESIGN 11.6, lesson of batch 9)
+                print("DISCARD-RATE %s source=%s: %d discards in %d evaluations (%s)" % (
+                    pid, src.name, ps["discards"], ps["evals"], ", ".join("%s x%d" % kv for kv in nd.most_common(3))))
             per_source[src.name] = ps
             if src.exhaustive and not agg.failures:
                 exhaustive.append(src.name)
